@@ -24,6 +24,17 @@ MUTANTS = [
     {"name": "c05-benign-sintl-refactor", "kind": "benign", "pids": ["C05"],
      "edits": [("xfab/tools.py", "    stl = n.sqrt(part1) / (2*n.sqrt(part2))\n\n    return stl",
                 "    stl = 0.5*n.sqrt(part1/part2)\n\n    return stl")]},
+    # ---- C11
+    {"name": "c11-fliplr-flipud-inverse-branch", "kind": "mutant", "pids": ["C11"],
+     "edits": [("xfab/detector.py", "            else: #inverse direction from (dety,detz) to imageformat\n                img = n.fliplr(img)\n        return img",
+                "            else: #inverse direction from (dety,detz) to imageformat\n                img = n.flipud(img)\n        return img")]},
+    {"name": "c11-detsize-not-transposed", "kind": "mutant", "pids": ["C11"],
+     "edits": [("xfab/detector.py", "    det_size = n.array([detz_size-1,\n                        dety_size-1])\n    coor = n.dot(omat, coor)- n.clip(",
+                "    det_size = n.array([dety_size-1,\n                        detz_size-1])\n    coor = n.dot(omat, coor)- n.clip(")]},
+    {"name": "c11-eta-branch", "kind": "mutant", "pids": ["C11"],
+     "edits": [("xfab/detector.py", "    if radcoor[0] <= 0:", "    if radcoor[0] < -0.5:")]},
+    {"name": "c11-benign-omat-T", "kind": "benign", "pids": ["C11"],
+     "edits": [("xfab/detector.py", "    omat = n.linalg.inv(omat)\n", "    omat = n.transpose(omat)*1.0\n")]},
     # ---- C15
     {"name": "c15-transpose-again", "kind": "mutant", "pids": ["C15"],
      "edits": [("xfab/structure.py", "lp[i, :] = n.dot(mysg.rot[i], position) + mysg.trans[i]",
